@@ -173,7 +173,7 @@ class Check(PropCheck):
                                 (D.E('div', 'a', D.E('b', 'x'), D.E('br'), D.E('p', sc=1)), 3)):
                     yield Case({'kind': kind, 'seed': seed, 'spares': [D.E('span')], 'target': t, 'html': h,
                                 'name': names[i % len(names)]}, 'fixed')
-        n = 12000 if tier == 'thorough' else 1500
+        n = 40000 if tier == 'thorough' else 4000
         for _ in range(n):
             kind, seed, spares, t = self.world(rng)
             shape, h = self.fragment(rng)
@@ -276,7 +276,8 @@ class Check(PropCheck):
         significant = [b for b in top if isinstance(b, Tag) or b.strip()]
         # createBlocksFromHTML: the top-level nodes in order, outermost elements included
         blocks = cls.createBlocksFromHTML(h)
-        if [canon(b, Tag) for b in blocks] != [canon(b, Tag) for b in top]:
+        nonempty = lambda lst: [canon(b, Tag) for b in lst if b != '']      # empty strings are not text of the fragment
+        if nonempty(blocks) != nonempty(top):
             return ('createBlocksFromHTML', 'returned %r, the document parser has %r at top level'
                     % ([canon(b, Tag) for b in blocks], [canon(b, Tag) for b in top]))
         for b in blocks:
@@ -325,7 +326,7 @@ class Check(PropCheck):
         if t.innerHTML != before_html + expect_html:
             return ('appendInnerHTML-innerHTML', 'innerHTML is %r, expected %r followed by %r' % (t.innerHTML, before_html, expect_html))
         new = list(t.blocks)[len(before_blocks):]
-        if any(a is not b for a, b in zip(list(t.blocks), before_blocks)) or [canon(b, Tag) for b in new] != [canon(b, Tag) for b in expect]:
+        if any(a is not b for a, b in zip(list(t.blocks), before_blocks)) or nonempty(new) != nonempty(expect):
             return ('appendInnerHTML-blocks', 'the target received %r, createBlocksFromHTML gives %r'
                     % ([canon(b, Tag) for b in new], [canon(b, Tag) for b in expect]))
         for b in new:
